@@ -275,165 +275,7 @@ func c07(c *core.Ctx) {
 
 	// ---------------------------------------------------------------- R3
 	if c.Rule("R3", "a buffer is handed to the application (channel send / Unmarshal) only on the nil-error edge of a full read (ReadFull / ReadAtLeast with min == len) of that very buffer", 2) {
-		n := 0
-		for _, fn := range fns {
-			core.Instrs(fn, func(in ssa.Instruction) {
-				fr, ok := in.(*ssa.Call)
-				if !ok {
-					return
-				}
-				ci := core.InfoOf(&fr.Call)
-				if !ci.Is("io.ReadAtLeast") && !ci.Is("io.ReadFull") && !(ci.Iface && ci.Name == "Read") {
-					return
-				}
-				n++
-				var buf ssa.Value
-				if ci.Iface {
-					buf = fr.Call.Args[0]
-				} else {
-					buf = fr.Call.Args[1]
-				}
-				key := core.FuncName(fn) + ":" + ci.Name + "(" + core.ValName(buf) + ")"
-				if ci.Iface {
-					c.Fail(key+":full-read", fr.Pos(), "direct Reader.Read fills a message buffer: a short read would silently corrupt large messages (use io.ReadFull / io.ReadAtLeast(len))")
-					return
-				}
-				if ci.Is("io.ReadAtLeast") {
-					min := fr.Call.Args[2]
-					okMin := false
-					if lx, isLen := lenArg(min); isLen && lx == buf {
-						okMin = true
-					}
-					if mk, isMk := buf.(*ssa.MakeSlice); isMk && stripNum(mk.Len) == stripNum(min) {
-						okMin = true
-					}
-					c.Check(okMin, key+":full-read", fr.Pos(), "ReadAtLeast with min == len(buf)", "ReadAtLeast with a minimum that is not the buffer length: a short read is accepted")
-				} else {
-					c.Ok(key+":full-read", fr.Pos(), "io.ReadFull")
-				}
-				// sinks of buf
-				for _, use := range bufferSinks(fn, buf) {
-					g := core.GuardedBy(use, func(f core.Fact) bool {
-						return f.Op == token.EQL && core.IsNilConst(f.Y) && core.OriginIs(f.X, func(o ssa.Value) bool {
-							cr, idx, ok := core.CallResult(o)
-							return ok && cr == fr && idx == 1
-						})
-					})
-					c.Check(g, key+":deliver-after-ok", use.Pos(), "hand-over dominated by readErr == nil", "buffer is handed to the application without the full read's error having been checked: a truncated frame fabricates a message")
-				}
-			})
-		}
-		if n == 0 {
-			c.Missing("full-read call sites in httpgrpc")
-		}
-		// sink-driven: provenance of every buffer handed to a decoder or to the
-		// message channel
-		for _, fn := range fns {
-			core.Instrs(fn, func(in ssa.Instruction) {
-				var buf ssa.Value
-				what := ""
-				switch x := in.(type) {
-				case *ssa.Call:
-					ci := core.InfoOf(&x.Call)
-					if ci.Name != "Unmarshal" {
-						return
-					}
-					for _, a := range core.Args(&x.Call) {
-						if core.TypeStr(a.Type()) == "[]byte" {
-							buf = a
-						}
-					}
-					what = "Unmarshal"
-				case *ssa.Send:
-					if core.TypeStr(x.X.Type()) == "[]byte" {
-						buf = x.X
-						what = "chan-send"
-					}
-				case *ssa.Select:
-					for _, st := range x.States {
-						if st.Send != nil && core.TypeStr(st.Send.Type()) == "[]byte" {
-							buf = st.Send
-							what = "chan-send"
-						}
-					}
-				}
-				if buf == nil {
-					return
-				}
-				key := core.FuncName(fn) + ":" + what + "(" + core.ValName(buf) + "):provenance"
-				bad := ""
-				for _, o := range core.Origins(buf) {
-					switch y := o.(type) {
-					case *ssa.MakeSlice:
-						// must be filled by a full read whose nil error dominates (checked above); here: such a read exists
-						found := false
-						for _, r := range core.Refs(y) {
-							if call, ok := r.(*ssa.Call); ok {
-								ci := core.InfoOf(&call.Call)
-								if ci.Is("io.ReadFull") || ci.Is("io.ReadAtLeast") {
-									found = true
-								}
-							}
-						}
-						if !found {
-							bad = "a made buffer that is not filled by io.ReadFull/io.ReadAtLeast"
-						}
-						continue
-					case *ssa.Parameter:
-						continue
-					case *ssa.UnOp:
-						if y.Op == token.ARROW {
-							continue
-						}
-					case *ssa.Const:
-						continue
-					}
-					call, idx, ok := core.CallResult(o)
-					if !ok {
-						if ex, isEx := o.(*ssa.Extract); isEx {
-							if _, isSel := ex.Tuple.(*ssa.Select); isSel {
-								continue // received from the message channel
-							}
-						}
-						bad = "a value of unrecognised provenance (" + core.ValName(o) + ")"
-						continue
-					}
-					ci := core.InfoOf(&call.Call)
-					switch {
-					case idx == 0 && (ci.Is("io.ReadAll") || ci.Is("io/ioutil.ReadAll")):
-						arg := core.Strip(call.Call.Args[0])
-						if ci2, isCI := call.Call.Args[0].(*ssa.ChangeInterface); isCI {
-							arg = ci2.X
-						}
-						_, f, isF := core.FieldOf(arg)
-						if !isF || f != "Body" {
-							bad = "ReadAll of something other than the HTTP body itself (a wrapped/limited reader ends early without error: a truncated frame would be decoded as a message)"
-						}
-					case idx == 0 && ci.Name == "Marshal":
-					case idx == 0 && ci.Name == "DecodeString":
-					case idx == 0 && isFullReadHelper(ci.Static):
-						// a helper of the package that makes the buffer, fills it with a full read and returns that
-						// read's error: the hand-over must sit on the nil edge of the error of this very call
-						hcall := call
-						if !core.GuardedBy(in, func(f core.Fact) bool {
-							return f.Op == token.EQL && core.IsNilConst(f.Y) && core.OriginIs(f.X, func(o2 ssa.Value) bool {
-								cr, i2, ok := core.CallResult(o2)
-								return ok && cr == hcall && i2 == 1
-							})
-						}) {
-							bad = "a full-read helper whose error has not been found nil: a truncated frame would be handed over as a message"
-						}
-					default:
-						bad = "the result of " + ci.Full()
-					}
-				}
-				if bad != "" {
-					c.Fail(key, in.Pos(), "buffer handed to %s comes from %s", what, bad)
-				} else {
-					c.Ok(key, in.Pos(), "buffer comes from a full read / the whole HTTP body / the message channel / a codec")
-				}
-			})
-		}
+		c07BufferProvenance(c, fns)
 		c.EndRule()
 	}
 
@@ -614,4 +456,171 @@ func isFullReadHelper(fn *ssa.Function) bool {
 		}
 	}
 	return true
+}
+
+// c07BufferProvenance: the obligations of C07/R3 (also a necessary condition
+// of C01 over HTTP: what the receiver decodes are exactly the bytes of one
+// frame / of the whole body).
+func c07BufferProvenance(c *core.Ctx, fns []*ssa.Function) {
+	p := c.P
+	_ = p
+	n := 0
+	for _, fn := range fns {
+		core.Instrs(fn, func(in ssa.Instruction) {
+			fr, ok := in.(*ssa.Call)
+			if !ok {
+				return
+			}
+			ci := core.InfoOf(&fr.Call)
+			if !ci.Is("io.ReadAtLeast") && !ci.Is("io.ReadFull") && !(ci.Iface && ci.Name == "Read") {
+				return
+			}
+			n++
+			var buf ssa.Value
+			if ci.Iface {
+				buf = fr.Call.Args[0]
+			} else {
+				buf = fr.Call.Args[1]
+			}
+			key := core.FuncName(fn) + ":" + ci.Name + "(" + core.ValName(buf) + ")"
+			if ci.Iface {
+				c.Fail(key+":full-read", fr.Pos(), "direct Reader.Read fills a message buffer: a short read would silently corrupt large messages (use io.ReadFull / io.ReadAtLeast(len))")
+				return
+			}
+			if ci.Is("io.ReadAtLeast") {
+				min := fr.Call.Args[2]
+				okMin := false
+				if lx, isLen := lenArg(min); isLen && lx == buf {
+					okMin = true
+				}
+				if mk, isMk := buf.(*ssa.MakeSlice); isMk && stripNum(mk.Len) == stripNum(min) {
+					okMin = true
+				}
+				c.Check(okMin, key+":full-read", fr.Pos(), "ReadAtLeast with min == len(buf)", "ReadAtLeast with a minimum that is not the buffer length: a short read is accepted")
+			} else {
+				c.Ok(key+":full-read", fr.Pos(), "io.ReadFull")
+			}
+			// sinks of buf
+			for _, use := range bufferSinks(fn, buf) {
+				g := core.GuardedBy(use, func(f core.Fact) bool {
+					return f.Op == token.EQL && core.IsNilConst(f.Y) && core.OriginIs(f.X, func(o ssa.Value) bool {
+						cr, idx, ok := core.CallResult(o)
+						return ok && cr == fr && idx == 1
+					})
+				})
+				c.Check(g, key+":deliver-after-ok", use.Pos(), "hand-over dominated by readErr == nil", "buffer is handed to the application without the full read's error having been checked: a truncated frame fabricates a message")
+			}
+		})
+	}
+	if n == 0 {
+		c.Missing("full-read call sites in httpgrpc")
+	}
+	// sink-driven: provenance of every buffer handed to a decoder or to the
+	// message channel
+	for _, fn := range fns {
+		core.Instrs(fn, func(in ssa.Instruction) {
+			var buf ssa.Value
+			what := ""
+			switch x := in.(type) {
+			case *ssa.Call:
+				ci := core.InfoOf(&x.Call)
+				if ci.Name != "Unmarshal" {
+					return
+				}
+				for _, a := range core.Args(&x.Call) {
+					if core.TypeStr(a.Type()) == "[]byte" {
+						buf = a
+					}
+				}
+				what = "Unmarshal"
+			case *ssa.Send:
+				if core.TypeStr(x.X.Type()) == "[]byte" {
+					buf = x.X
+					what = "chan-send"
+				}
+			case *ssa.Select:
+				for _, st := range x.States {
+					if st.Send != nil && core.TypeStr(st.Send.Type()) == "[]byte" {
+						buf = st.Send
+						what = "chan-send"
+					}
+				}
+			}
+			if buf == nil {
+				return
+			}
+			key := core.FuncName(fn) + ":" + what + "(" + core.ValName(buf) + "):provenance"
+			bad := ""
+			for _, o := range core.Origins(buf) {
+				switch y := o.(type) {
+				case *ssa.MakeSlice:
+					// must be filled by a full read whose nil error dominates (checked above); here: such a read exists
+					found := false
+					for _, r := range core.Refs(y) {
+						if call, ok := r.(*ssa.Call); ok {
+							ci := core.InfoOf(&call.Call)
+							if ci.Is("io.ReadFull") || ci.Is("io.ReadAtLeast") {
+								found = true
+							}
+						}
+					}
+					if !found {
+						bad = "a made buffer that is not filled by io.ReadFull/io.ReadAtLeast"
+					}
+					continue
+				case *ssa.Parameter:
+					continue
+				case *ssa.UnOp:
+					if y.Op == token.ARROW {
+						continue
+					}
+				case *ssa.Const:
+					continue
+				}
+				call, idx, ok := core.CallResult(o)
+				if !ok {
+					if ex, isEx := o.(*ssa.Extract); isEx {
+						if _, isSel := ex.Tuple.(*ssa.Select); isSel {
+							continue // received from the message channel
+						}
+					}
+					bad = "a value of unrecognised provenance (" + core.ValName(o) + ")"
+					continue
+				}
+				ci := core.InfoOf(&call.Call)
+				switch {
+				case idx == 0 && (ci.Is("io.ReadAll") || ci.Is("io/ioutil.ReadAll")):
+					arg := core.Strip(call.Call.Args[0])
+					if ci2, isCI := call.Call.Args[0].(*ssa.ChangeInterface); isCI {
+						arg = ci2.X
+					}
+					_, f, isF := core.FieldOf(arg)
+					if !isF || f != "Body" {
+						bad = "ReadAll of something other than the HTTP body itself (a wrapped/limited reader ends early without error: a truncated frame would be decoded as a message)"
+					}
+				case idx == 0 && ci.Name == "Marshal":
+				case idx == 0 && ci.Name == "DecodeString":
+				case idx == 0 && isFullReadHelper(ci.Static):
+					// a helper of the package that makes the buffer, fills it with a full read and returns that
+					// read's error: the hand-over must sit on the nil edge of the error of this very call
+					hcall := call
+					if !core.GuardedBy(in, func(f core.Fact) bool {
+						return f.Op == token.EQL && core.IsNilConst(f.Y) && core.OriginIs(f.X, func(o2 ssa.Value) bool {
+							cr, i2, ok := core.CallResult(o2)
+							return ok && cr == hcall && i2 == 1
+						})
+					}) {
+						bad = "a full-read helper whose error has not been found nil: a truncated frame would be handed over as a message"
+					}
+				default:
+					bad = "the result of " + ci.Full()
+				}
+			}
+			if bad != "" {
+				c.Fail(key, in.Pos(), "buffer handed to %s comes from %s", what, bad)
+			} else {
+				c.Ok(key, in.Pos(), "buffer comes from a full read / the whole HTTP body / the message channel / a codec")
+			}
+		})
+	}
 }
